@@ -107,37 +107,44 @@ Definition b64_dec_s (s : string) : option string :=
   option_map string_of_bytes (b64_dec_l (S (String.length s)) (list_ascii_of_string s)).
 
 (** ** The instantiated model *)
-Notation Pv := (pv string string).
-Notation Doc := (doc string string string).
-Definition enc : Doc -> node := ds_encode string id_s string id_s string id_s b64_enc_s.
-Definition dec : node -> option Doc :=
-  ds_decode string float_parse string float_parse string date_parse_s b64_dec_s.
-Definition wfb : Doc -> bool := ds_wfb string string string.
-Definition classb : Doc -> bool := known_class_b string string string.
-Definition spec_write : Doc -> node := spec_ds_write string id_s string id_s string id_s b64_enc_s.
+Definition RL : l1 :=
+  {| l_F32 := string; l_f32_print := id_s; l_f32_parse := float_parse;
+     l_F64 := string; l_f64_print := id_s; l_f64_parse := float_parse;
+     l_DATE := string; l_date_print := id_s; l_date_parse := date_parse_s;
+     l_b64_enc := b64_enc_s; l_b64_dec := b64_dec_s |}.
+Notation Pv := (pv RL).
+Notation Doc := (doc RL).
+Definition enc : Doc -> node := ds_encode RL.
+Definition dec : node -> option Doc := ds_decode RL.
+Definition wfb : Doc -> bool := ds_wfb RL.
+Definition classb : Doc -> bool := known_class_b RL.
+Definition spec_write : Doc -> node := spec_ds_write RL.
 
 (** a string with bytes the case-file writer prefers not to put into a literal *)
 Definition bs (l : list N) : string := string_of_bytes l.
 
 (** short constructors for the generated case files *)
-Definition S_ (s : string) : Pv := PStr string string s.
-Definition I_ (z : Z) : Pv := PInt string string z.
-Definition R_ (r : string) : Pv := PReal string string r.
-Definition B_ (b : bool) : Pv := PBool string string b.
-Definition D_ (d : string) : Pv := PData string string d.
-Definition T_ (t : string) : Pv := PDate string string t.
-Definition A_ (l : list Pv) : Pv := PArr string string l.
-Definition M_ (l : list (string * Pv)) : Pv := PDict string string l.
-Definition Mp := Build_mapping string.
-Definition Ax := Build_axis string.
-Definition Co := Build_condition string.
+Definition S_ (s : string) : Pv := PStr RL s.
+Definition I_ (z : Z) : Pv := PInt RL z.
+Definition R_ (r : string) : Pv := PReal RL r.
+Definition B_ (b : bool) : Pv := PBool RL b.
+Definition D_ (d : string) : Pv := PData RL d.
+Definition T_ (t : string) : Pv := PDate RL t.
+Definition A_ (l : list Pv) : Pv := PArr RL l.
+Definition M_ (l : list (string * Pv)) : Pv := PDict RL l.
+Definition Mp : string -> string -> mapping RL := Build_mapping RL.
+Definition Ax : string -> string -> string -> bool -> option string -> option string ->
+                option (list string) -> option (list (mapping RL)) -> axis RL := Build_axis RL.
+Definition Co : string -> option string -> option string -> condition RL := Build_condition RL.
 Definition Su := Build_subst.
-Definition Ru := Build_rule string.
-Definition Rs := Build_rules string.
-Definition Di := Build_dimension string.
-Definition So := Build_source string.
-Definition In := Build_instance string string string.
-Definition Ds := Build_doc string string string.
+Definition Ru := Build_rule RL.
+Definition Rs := Build_rules RL.
+Definition Di : string -> option string -> option string -> option string -> dimension RL :=
+  Build_dimension RL.
+Definition So := Build_source RL.
+Definition In := Build_instance RL.
+Definition Ds : string -> list (axis RL) -> rules RL -> list (source RL) -> list (instance RL) ->
+                list (string * Pv) -> Doc := Build_doc RL.
 
 (** ** Equality on instantiated documents *)
 Definition opt_eqb {A} (e : A -> A -> bool) (a b : option A) : bool :=
@@ -150,20 +157,20 @@ Definition seqb := String.eqb.
 Definition oseqb := opt_eqb seqb.
 Fixpoint pv_eqb (a b : Pv) {struct a} : bool :=
   match a, b with
-  | PStr _ _ x, PStr _ _ y => seqb x y
-  | PInt _ _ x, PInt _ _ y => Z.eqb x y
-  | PReal _ _ x, PReal _ _ y => seqb x y
-  | PBool _ _ x, PBool _ _ y => Bool.eqb x y
-  | PData _ _ x, PData _ _ y => seqb x y
-  | PDate _ _ x, PDate _ _ y => seqb x y
-  | PArr _ _ x, PArr _ _ y =>
+  | PStr _ x, PStr _ y => seqb x y
+  | PInt _ x, PInt _ y => Z.eqb x y
+  | PReal _ x, PReal _ y => seqb x y
+  | PBool _ x, PBool _ y => Bool.eqb x y
+  | PData _ x, PData _ y => seqb x y
+  | PDate _ x, PDate _ y => seqb x y
+  | PArr _ x, PArr _ y =>
       (fix go (x y : list Pv) {struct x} : bool :=
          match x, y with
          | [], [] => true
          | p :: x', q :: y' => pv_eqb p q && go x' y'
          | _, _ => false
          end) x y
-  | PDict _ _ x, PDict _ _ y =>
+  | PDict _ x, PDict _ y =>
       (fix go (x y : list (string * Pv)) {struct x} : bool :=
          match x, y with
          | [], [] => true
@@ -173,52 +180,52 @@ Fixpoint pv_eqb (a b : Pv) {struct a} : bool :=
   | _, _ => false
   end.
 Definition dict_eqb (a b : list (string * Pv)) : bool := pv_eqb (M_ a) (M_ b).
-Definition mapping_eqb (a b : mapping string) : bool :=
+Definition mapping_eqb (a b : mapping RL) : bool :=
   seqb (m_input _ a) (m_input _ b) && seqb (m_output _ a) (m_output _ b).
-Definition axis_eqb (a b : axis string) : bool :=
+Definition axis_eqb (a b : axis RL) : bool :=
   seqb (ax_name _ a) (ax_name _ b) && seqb (ax_tag _ a) (ax_tag _ b)
   && seqb (ax_default _ a) (ax_default _ b) && Bool.eqb (ax_hidden _ a) (ax_hidden _ b)
   && oseqb (ax_minimum _ a) (ax_minimum _ b) && oseqb (ax_maximum _ a) (ax_maximum _ b)
   && opt_eqb (list_eqb seqb) (ax_values _ a) (ax_values _ b)
   && opt_eqb (list_eqb mapping_eqb) (ax_map _ a) (ax_map _ b).
-Definition condition_eqb (a b : condition string) : bool :=
+Definition condition_eqb (a b : condition RL) : bool :=
   seqb (c_name _ a) (c_name _ b) && oseqb (c_minimum _ a) (c_minimum _ b)
   && oseqb (c_maximum _ a) (c_maximum _ b).
 Definition subst_eqb (a b : subst) : bool :=
   seqb (sub_name a) (sub_name b) && seqb (sub_with a) (sub_with b).
-Definition rule_eqb (a b : rule string) : bool :=
+Definition rule_eqb (a b : rule RL) : bool :=
   oseqb (r_name _ a) (r_name _ b)
   && list_eqb (list_eqb condition_eqb) (r_condsets _ a) (r_condsets _ b)
   && list_eqb subst_eqb (r_subs _ a) (r_subs _ b).
 Definition processing_eqb (a b : processing) : bool :=
   match a, b with PFirst, PFirst => true | PLast, PLast => true | _, _ => false end.
-Definition rules_eqb (a b : rules string) : bool :=
+Definition rules_eqb (a b : rules RL) : bool :=
   processing_eqb (rs_processing _ a) (rs_processing _ b)
   && list_eqb rule_eqb (rs_rules _ a) (rs_rules _ b).
-Definition dimension_eqb (a b : dimension string) : bool :=
+Definition dimension_eqb (a b : dimension RL) : bool :=
   seqb (d_name _ a) (d_name _ b) && oseqb (d_uservalue _ a) (d_uservalue _ b)
   && oseqb (d_xvalue _ a) (d_xvalue _ b) && oseqb (d_yvalue _ a) (d_yvalue _ b).
-Definition source_eqb (a b : source string) : bool :=
+Definition source_eqb (a b : source RL) : bool :=
   oseqb (s_familyname _ a) (s_familyname _ b) && oseqb (s_stylename _ a) (s_stylename _ b)
   && oseqb (s_name _ a) (s_name _ b) && seqb (s_filename _ a) (s_filename _ b)
   && oseqb (s_layer _ a) (s_layer _ b)
   && list_eqb dimension_eqb (s_location _ a) (s_location _ b).
-Definition instance_eqb (a b : instance string string string) : bool :=
-  oseqb (i_familyname _ _ _ a) (i_familyname _ _ _ b)
-  && oseqb (i_stylename _ _ _ a) (i_stylename _ _ _ b)
-  && oseqb (i_name _ _ _ a) (i_name _ _ _ b) && oseqb (i_filename _ _ _ a) (i_filename _ _ _ b)
-  && oseqb (i_postscriptfontname _ _ _ a) (i_postscriptfontname _ _ _ b)
-  && oseqb (i_stylemapfamilyname _ _ _ a) (i_stylemapfamilyname _ _ _ b)
-  && oseqb (i_stylemapstylename _ _ _ a) (i_stylemapstylename _ _ _ b)
-  && list_eqb dimension_eqb (i_location _ _ _ a) (i_location _ _ _ b)
-  && dict_eqb (i_lib _ _ _ a) (i_lib _ _ _ b).
+Definition instance_eqb (a b : instance RL) : bool :=
+  oseqb (i_familyname _ a) (i_familyname _ b)
+  && oseqb (i_stylename _ a) (i_stylename _ b)
+  && oseqb (i_name _ a) (i_name _ b) && oseqb (i_filename _ a) (i_filename _ b)
+  && oseqb (i_postscriptfontname _ a) (i_postscriptfontname _ b)
+  && oseqb (i_stylemapfamilyname _ a) (i_stylemapfamilyname _ b)
+  && oseqb (i_stylemapstylename _ a) (i_stylemapstylename _ b)
+  && list_eqb dimension_eqb (i_location _ a) (i_location _ b)
+  && dict_eqb (i_lib _ a) (i_lib _ b).
 Definition doc_eqb (a b : Doc) : bool :=
-  seqb (ds_format _ _ _ a) (ds_format _ _ _ b)
-  && list_eqb axis_eqb (ds_axes _ _ _ a) (ds_axes _ _ _ b)
-  && rules_eqb (ds_rules _ _ _ a) (ds_rules _ _ _ b)
-  && list_eqb source_eqb (ds_sources _ _ _ a) (ds_sources _ _ _ b)
-  && list_eqb instance_eqb (ds_instances _ _ _ a) (ds_instances _ _ _ b)
-  && dict_eqb (ds_lib _ _ _ a) (ds_lib _ _ _ b).
+  seqb (ds_format _ a) (ds_format _ b)
+  && list_eqb axis_eqb (ds_axes _ a) (ds_axes _ b)
+  && rules_eqb (ds_rules _ a) (ds_rules _ b)
+  && list_eqb source_eqb (ds_sources _ a) (ds_sources _ b)
+  && list_eqb instance_eqb (ds_instances _ a) (ds_instances _ b)
+  && dict_eqb (ds_lib _ a) (ds_lib _ b).
 
 (** ** Hashes.  The case files carry documents and trees once; what the implementation produced
     (the tree the independent reader found in the file, the document [load] returned) arrives as a
@@ -250,27 +257,27 @@ Definition dump_os (tag : string) (o : option string) : node :=
   match o with None => Elem tag [] [] | Some s => Elem tag [("v", s)] [] end.
 Fixpoint dump_pv (v : Pv) : node :=
   match v with
-  | PStr _ _ s => dump_s "s" s
-  | PInt _ _ z => dump_s "i" (print_int z)
-  | PReal _ _ r => dump_s "r" r
-  | PBool _ _ b => T0 (if b then "bt" else "bf")
-  | PData _ _ d => dump_s "d" d
-  | PDate _ _ t => dump_s "t" t
-  | PArr _ _ l => Elem "a" [] ((fix go (l : list Pv) : list node :=
+  | PStr _ s => dump_s "s" s
+  | PInt _ z => dump_s "i" (print_int z)
+  | PReal _ r => dump_s "r" r
+  | PBool _ b => T0 (if b then "bt" else "bf")
+  | PData _ d => dump_s "d" d
+  | PDate _ t => dump_s "t" t
+  | PArr _ l => Elem "a" [] ((fix go (l : list Pv) : list node :=
                                   match l with [] => [] | x :: r => dump_pv x :: go r end) l)
-  | PDict _ _ l => Elem "m" [] ((fix go (l : list (string * Pv)) : list node :=
+  | PDict _ l => Elem "m" [] ((fix go (l : list (string * Pv)) : list node :=
                                    match l with
                                    | [] => []
                                    | (k, x) :: r => dump_s "k" k :: dump_pv x :: go r
                                    end) l)
   end.
-Definition dump_dims (l : list (dimension string)) : node :=
-  Elem "loc" [] (map (fun d => Elem "dim" [] [dump_s "name" (d_name _ d); dump_os "u" (d_uservalue _ d);
+Definition dump_dims (l : list (dimension RL)) : node :=
+  Elem "loc" [] (map (fun d : dimension RL => Elem "dim" [] [dump_s "name" (d_name _ d); dump_os "u" (d_uservalue _ d);
                                              dump_os "x" (d_xvalue _ d); dump_os "y" (d_yvalue _ d)]) l).
 Definition dump_doc (d : Doc) : node :=
   Elem "doc" []
-    [ dump_s "format" (ds_format _ _ _ d);
-      Elem "axes" [] (map (fun a =>
+    [ dump_s "format" (ds_format _ d);
+      Elem "axes" [] (map (fun a : axis RL =>
         Elem "axis" []
           [dump_s "name" (ax_name _ a); dump_s "tag" (ax_tag _ a); dump_s "default" (ax_default _ a);
            T0 (if ax_hidden _ a then "bt" else "bf"); dump_os "min" (ax_minimum _ a);
@@ -278,32 +285,32 @@ Definition dump_doc (d : Doc) : node :=
            match ax_values _ a with None => T0 "novalues" | Some l => Elem "values" [] (map (dump_s "f") l) end;
            match ax_map _ a with
            | None => T0 "nomap"
-           | Some l => Elem "map" [] (map (fun m => Elem "m" [] [dump_s "i" (m_input _ m); dump_s "o" (m_output _ m)]) l)
-           end]) (ds_axes _ _ _ d));
-      T0 (match rs_processing _ (ds_rules _ _ _ d) with PFirst => "first" | PLast => "last" end);
-      Elem "rules" [] (map (fun r =>
+           | Some l => Elem "map" [] (map (fun m : mapping RL => Elem "m" [] [dump_s "i" (m_input _ m); dump_s "o" (m_output _ m)]) l)
+           end]) (ds_axes _ d));
+      T0 (match rs_processing _ (ds_rules _ d) with PFirst => "first" | PLast => "last" end);
+      Elem "rules" [] (map (fun r : rule RL =>
         Elem "rule" []
           [dump_os "name" (r_name _ r);
-           Elem "css" [] (map (fun cs => Elem "cs" [] (map (fun c =>
+           Elem "css" [] (map (fun cs : list (condition RL) => Elem "cs" [] (map (fun c : condition RL =>
               Elem "c" [] [dump_s "name" (c_name _ c); dump_os "min" (c_minimum _ c); dump_os "max" (c_maximum _ c)]) cs))
               (r_condsets _ r));
            Elem "subs" [] (map (fun s => Elem "sub" [] [dump_s "n" (sub_name s); dump_s "w" (sub_with s)]) (r_subs _ r))])
-        (rs_rules _ (ds_rules _ _ _ d)));
-      Elem "sources" [] (map (fun s =>
+        (rs_rules _ (ds_rules _ d)));
+      Elem "sources" [] (map (fun s : source RL =>
         Elem "source" []
           [dump_os "familyname" (s_familyname _ s); dump_os "stylename" (s_stylename _ s); dump_os "name" (s_name _ s);
            dump_s "filename" (s_filename _ s); dump_os "layer" (s_layer _ s); dump_dims (s_location _ s)])
-        (ds_sources _ _ _ d));
-      Elem "instances" [] (map (fun s =>
+        (ds_sources _ d));
+      Elem "instances" [] (map (fun s : instance RL =>
         Elem "instance" []
-          [dump_os "familyname" (i_familyname _ _ _ s); dump_os "stylename" (i_stylename _ _ _ s);
-           dump_os "name" (i_name _ _ _ s); dump_os "filename" (i_filename _ _ _ s);
-           dump_os "postscriptfontname" (i_postscriptfontname _ _ _ s);
-           dump_os "stylemapfamilyname" (i_stylemapfamilyname _ _ _ s);
-           dump_os "stylemapstylename" (i_stylemapstylename _ _ _ s);
-           dump_dims (i_location _ _ _ s); dump_pv (M_ (i_lib _ _ _ s))])
-        (ds_instances _ _ _ d));
-      dump_pv (M_ (ds_lib _ _ _ d)) ].
+          [dump_os "familyname" (i_familyname _ s); dump_os "stylename" (i_stylename _ s);
+           dump_os "name" (i_name _ s); dump_os "filename" (i_filename _ s);
+           dump_os "postscriptfontname" (i_postscriptfontname _ s);
+           dump_os "stylemapfamilyname" (i_stylemapfamilyname _ s);
+           dump_os "stylemapstylename" (i_stylemapstylename _ s);
+           dump_dims (i_location _ s); dump_pv (M_ (i_lib _ s))])
+        (ds_instances _ d));
+      dump_pv (M_ (ds_lib _ d)) ].
 Definition hash_doc (d : Doc) : N := hash_node hinit (dump_doc d).
 
 (** ** Cases *)
